@@ -157,7 +157,7 @@ static int buffers(int shard, int nshards)
                 }
         }
         /* strings: all strings over a 9-symbol alphabet, length < data_size <= 5 */
-        static const uint8_t SA[9] = {'a', '"', '\\', '\n', ',', 0x01, 0x7f, 0x80, 0xff};
+        static const uint8_t SA[10] = {'a', '"', '\\', '\n', ',', ' ', 0x01, 0x7f, 0x80, 0xff};
         for (int ds = 1; ds <= 5; ds++) {
                 struct wvar v = mkvar(CAT_VAR_BUF_STRING, ds);
                 build(1, &v, 64);
@@ -171,7 +171,7 @@ static int buffers(int shard, int nshards)
                                         if (roundtrip(vals, 1)) return 1;
                                 }
                                 int q = len - 1;
-                                while (q >= 0 && ++cnt[q] == 9) { cnt[q] = 0; q--; }
+                                while (q >= 0 && ++cnt[q] == 10) { cnt[q] = 0; q--; }
                                 if (q < 0) break;
                         }
                 }
